@@ -13,6 +13,7 @@ import (
 	"os"
 	"sort"
 	"strings"
+	"sync"
 
 	"github.com/hneemann/parser2/funcGen"
 	"github.com/hneemann/parser2/value"
@@ -118,6 +119,13 @@ var constStages = []struct{ name, expr string }{
 	{"map-member", "{l:[1,2,3,4].map(e->e*2)}.l"},
 	{"nested", "[[2,4,6,8].map(e->e)][0]"},
 	{"numbers", "numbers(5).skip(1).map(e->e*2)"},
+	// stages over a stage whose producer uses the stack it is handed: the outer stage must hand its own
+	// iteration stack on (seeded change S11C: list + list iterating on the stack of its creation)
+	{"concat-of-stack-stages", "[1,2].number((n,e)->n+e+1)+[1,2,3].combine((x,y)->x+y+3)"},
+	{"top-of-stack-stage", "[2,3,4,5,9].number((n,e)->n+e).top(4)"},
+	{"skip-of-stack-stage", "[9,1,2,3,4].number((n,e)->n+e).skip(1)"},
+	{"map-of-stack-stage", "[2,3,4,5].number((n,e)->n+e).map(e->e)"},
+	{"accept-of-stack-stage", "[2,3,4,5].number((n,e)->n+e).accept(e->e>0)"},
 }
 
 // consumers: body of (l,k)->…; l is the shared constant, k the argument
@@ -195,7 +203,104 @@ func classifyRace(race string) string {
 	return ""
 }
 
+// runFree: the same programs free-running on real goroutines — on the plain build (outcomes only) and
+// on the -race build, where Go's race detector sees ALL memory, also what no hook of the controlled
+// scheduler covers (e.g. a map in the generator). Every scenario gets a FRESH generator and function:
+// state that is filled lazily by the first evaluations is only racy while it is cold.
+func runFree(ctx *bex.Ctx) {
+	log.SetOutput(io.Discard)
+	name := "free-running-plain-build"
+	if ctx.Race {
+		name = "race-detector-pass"
+	}
+	ctx.Space(name)
+	const T = 4
+	reps := 3
+	if !ctx.Quick() {
+		reps = 10
+	}
+	all := append(append([]program{}, programs(ctx.Quick())...), productPrograms(ctx.Quick())...)
+	var idx int64
+	for _, p := range all {
+		idx++
+		if !ctx.Mine(idx) || ctx.Expired() {
+			continue
+		}
+		args := []int{0, 1, 2, 1}
+		repro := map[string]any{"src": p.Src, "threads": T, "args": args, "plain": true, "racebuild": ctx.Race}
+		if !ctx.Begin(func() map[string]any { return repro }) {
+			continue
+		}
+		iso := make([]string, T)
+		for i := range iso {
+			g := value.New()
+			f, _, err := g.Generate(p.Src, "a")
+			if err != nil {
+				iso[i] = "GENERR"
+				continue
+			}
+			iso[i] = vrun.Eval(f, []value.Value{value.Int(args[i])}).String()
+			if strings.HasPrefix(iso[i], "error") {
+				iso[i] = "error"
+			}
+		}
+		want := strings.Join(iso, " | ")
+		for r := 0; r < reps; r++ {
+			ctx.Eval()
+			g := value.New()
+			f, _, err := g.Generate(p.Src, "a")
+			if err != nil {
+				break
+			}
+			res := make([]string, T)
+			var ready, done sync.WaitGroup
+			start := make(chan struct{})
+			for i := 0; i < T; i++ {
+				ready.Add(1)
+				done.Add(1)
+				go func(i int) {
+					defer done.Done()
+					ready.Done()
+					<-start
+					o := vrun.Eval(f, []value.Value{value.Int(args[i])}).String()
+					if strings.HasPrefix(o, "error") {
+						o = "error"
+					}
+					res[i] = o
+				}(i)
+			}
+			ready.Wait()
+			close(start)
+			done.Wait()
+			ctx.Add("free_running_runs", 1)
+			if got := strings.Join(res, " | "); got != want {
+				ctx.Violate("a concurrent evaluation (real goroutines) returns an outcome different from its isolated evaluation", repro, want, got, "")
+			}
+		}
+		ctx.Nontrivial("free|" + p.Src)
+		ctx.Outcome(name)
+		if ctx.Race {
+			if rep := ctx.RaceReports(); rep != "" {
+				finding := ""
+				if strings.Contains(rep, "value.(*List).Eval") {
+					finding = "F11-lazy-constant-materialisation-race"
+				}
+				if len(rep) > 2500 {
+					rep = rep[:2500] + "…"
+				}
+				ctx.Violate("the Go race detector reports a data race (free-running -race build)", repro, "no report", rep, finding)
+			}
+		}
+	}
+	ctx.SpaceDone(fmt.Sprintf("%d programs, each %d times on a fresh generator: %d real goroutines released together evaluate the same fresh function; outcomes = isolated outcomes%s", len(all), reps, T,
+		map[bool]string{true: "; every report of Go's race detector is a violation", false: ""}[ctx.Race]))
+}
+
 func run(ctx *bex.Ctx) {
+	if !ctx.Coop {
+		runFree(ctx)
+		return
+	}
 	log.SetOutput(io.Discard)
 	g := value.New()
 	ctx.Space("concurrent-evaluations")
@@ -384,8 +489,62 @@ func copyMap(m map[string]any) map[string]any {
 	return o
 }
 
+// replayFree: a case of the free-running passes, 200 times on fresh generators (outcomes only; data
+// races are re-decided by running the check, whose -race build sees them).
+func replayFree(repro map[string]any) (string, bool) {
+	src, _ := repro["src"].(string)
+	args := []int{0, 1, 2, 1}
+	T := len(args)
+	iso := make([]string, T)
+	for i := range iso {
+		g := value.New()
+		f, _, err := g.Generate(src, "a")
+		if err != nil {
+			return "does not generate: " + err.Error(), true
+		}
+		iso[i] = vrun.Eval(f, []value.Value{value.Int(args[i])}).String()
+		if strings.HasPrefix(iso[i], "error") {
+			iso[i] = "error"
+		}
+	}
+	want := strings.Join(iso, " | ")
+	diff, last := 0, ""
+	for r := 0; r < 200; r++ {
+		g := value.New()
+		f, _, _ := g.Generate(src, "a")
+		res := make([]string, T)
+		var ready, done sync.WaitGroup
+		start := make(chan struct{})
+		for i := 0; i < T; i++ {
+			ready.Add(1)
+			done.Add(1)
+			go func(i int) {
+				defer done.Done()
+				ready.Done()
+				<-start
+				o := vrun.Eval(f, []value.Value{value.Int(args[i])}).String()
+				if strings.HasPrefix(o, "error") {
+					o = "error"
+				}
+				res[i] = o
+			}(i)
+		}
+		ready.Wait()
+		close(start)
+		done.Wait()
+		if got := strings.Join(res, " | "); got != want {
+			diff++
+			last = got
+		}
+	}
+	return fmt.Sprintf("isolated: %s; %d of 200 free-running rounds of %d goroutines differ (%s); data races are only visible to the -race build of the check", want, diff, T, last), diff > 0
+}
+
 func replay(repro map[string]any) (string, bool) {
 	log.SetOutput(io.Discard)
+	if p, _ := repro["plain"].(bool); p {
+		return replayFree(repro)
+	}
 	g := value.New()
 	src, _ := repro["src"].(string)
 	T := 2
@@ -478,7 +637,9 @@ func main() {
 			"sequentially consistent interleavings at field granularity; weak-memory effects of a racy program are out of reach, which is why the race itself is the reported violation",
 			"value.New() (which rewrites the package-level type ids) is not run concurrently"},
 		QuickBudget: 60e9, ThoroughBudget: 25 * 60e9,
-		Run:    run,
-		Replay: replay,
+		Workers: 1, CoopWorkers: 13, RaceWorkers: 2,
+		Run:              run,
+		Replay:           replay,
+		CrashIsViolation: true, // a worker process that dies while it executes a case on the library is a verdict on that case
 	})
 }
